@@ -664,6 +664,46 @@ def build_cases(tier, seed):
     return S, R, lattice
 
 
+def switchgdd_cases():
+    import numpy as np
+    from aquacrop import AquaCropModel, Soil, Crop, InitialWaterContent
+    from aquacrop.utils import prepare_weather, get_filepath
+    out = []
+    for cname, pmd, wxf, s_start, s_end in (("Maize", "05/01", "champion_climate.txt", "1982/05/01", "1983/12/31"),
+                                            ("Wheat", "10/15", "tunis_climate.txt", "1979/10/15", "1981/09/30")):
+        W = prepare_weather(get_filepath(wxf))
+        for off in (False, True):
+            case = f"R2|{cname}+SwitchGDD|plant={pmd}|{s_start}..{s_end}|off={int(off)}"
+            res = {"case": case, "kind": "R", "nontrivial": False, "fails": [], "obs": {}, "rejected": False}
+            repro = (f"m=AquaCropModel('{s_start}','{s_end}', prepare_weather(get_filepath('{wxf}')), Soil('SandyLoam'), Crop('{cname}', planting_date='{pmd}', "
+                     f"harvest_date='{'10/30' if cname == 'Maize' else '07/15'}', SwitchGDD=1), InitialWaterContent(value=['FC']), off_season={off}); m.run_model(till_termination=True)")
+            try:
+                m = AquaCropModel(s_start, s_end, W, Soil("SandyLoam"), Crop(cname, planting_date=pmd, harvest_date=("10/30" if cname == "Maize" else "07/15"), SwitchGDD=1),
+                                  InitialWaterContent(value=["FC"]), off_season=off)
+                m.run_model(till_termination=True)
+            except Exception as exc:  # documented rejections and known findings of the conversion are not this clause's business
+                res["rejected"] = True
+                res["obs"]["exception"] = f"{type(exc).__name__}: {str(exc)[:100]}"
+                out.append(res)
+                continue
+            cg = m._outputs.crop_growth
+            seasons = np.asarray(cg["season_counter"], dtype=float)
+            dap = np.asarray(cg["dap"], dtype=float)
+            res["nontrivial"] = True
+            for k in sorted(set(int(x) for x in seasons if x == x and x >= 0)):
+                d = dap[seasons == k]
+                grow = d[d > 0]
+                first_zero_after = np.argmax(d == 0) if (d == 0).any() else len(d)
+                if len(grow) and (list(grow) != list(range(1, len(grow) + 1)) or (d[first_zero_after:] > 0).any()):
+                    res["fails"].append({"signature": "run|converted-crop|growing-days-not-contiguous", "clause": "within a season the growing days are numbered 1, 2, 3, ... without a gap",
+                                         "detail": f"season {k}: dap sequence starts {list(d[:8])} in {case}", "repro": repro, "case": case})
+                elif len(grow) < 60:
+                    res["fails"].append({"signature": "run|converted-crop|season-shorter-than-60-growing-days", "clause": "a well-watered season of a converted crop lasts until maturity / the harvest date",
+                                         "detail": f"season {k}: only {len(grow)} growing day(s) (dap sequence starts {list(d[:6])}) in {case}", "repro": repro, "case": case})
+            out.append(res)
+    return out
+
+
 def main():
     ap = argparse.ArgumentParser()
     ap.add_argument("--tier", choices=["quick", "thorough"], default="quick")
@@ -690,6 +730,14 @@ def main():
                 results.extend(out)
     except Exception as exc:  # noqa: BLE001
         exceptions.append(f"driver: {type(exc).__name__}: {exc} {traceback.format_exc(limit=4)[-600:]}")
+
+    # ---- converted crops (calendar-day parameters converted to thermal time at initialisation, SwitchGDD=1): the independent oracle above
+    # does not model the conversion, so only the shape of a season is checked: its growing days are numbered 1, 2, 3, ... without gaps, and on
+    # well-watered SandyLoam under the real weather files a season lasts at least 60 days when the window allows it
+    try:
+        results.extend(switchgdd_cases())
+    except Exception as exc:  # noqa: BLE001
+        exceptions.append(f"switchgdd cases: {type(exc).__name__}: {exc} {traceback.format_exc(limit=4)[-400:]}")
 
     results.sort(key=lambda r: r["case"])
     fails_by_sig = {}
